@@ -349,6 +349,15 @@ type renderOutcome struct {
 	state    string
 	failures []finding
 	vtDump   string
+	vtHashes []string // fingerprint of the terminal state after every operation
+}
+
+func fnv1a(s string) uint64 {
+	h := uint64(14695981039346656037)
+	for i := 0; i < len(s); i++ {
+		h = (h ^ uint64(s[i])) * 1099511628211
+	}
+	return h
 }
 
 func stateLine(st tea.VerifRendererState) string {
@@ -404,6 +413,7 @@ func runHistory(h rhistory) (res renderOutcome) {
 			t.resize(o.w, o.h)
 		}
 		t.write(written)
+		res.vtHashes = append(res.vtHashes, fmt.Sprint(fnv1a(t.dump())))
 		after := rd.State()
 		switch o.op {
 		case "w":
@@ -618,7 +628,7 @@ func streamVT(c *corrOut, r *rng, n int, thorough bool) map[string]interface{} {
 	for c.count < n {
 		h := genHistory(r, 30)
 		res := runHistory(h)
-		c.emit(h.line(), res.vtDump, fmt.Sprintf("w%d", h.w))
+		c.emit(h.line(), strings.Join(res.vtHashes, ",")+" # "+res.vtDump, fmt.Sprintf("w%d", h.w))
 	}
 	return nil
 }
